@@ -86,11 +86,10 @@ Definition cfg := list section.
 (* ------------------------------------------------------------------ quirks *)
 Record quirks := mk_quirks {
   (* the shebang fallback is applied to every file whose extension is not in the map, not only to
-     extensionless files *)
-  q_shebang_any_ext : bool;
-  (* a ValueError raised while ANOTHER linter loads its section aborts the whole command *)
-  q_foreign_reject_aborts : bool }.
-Definition ideal : quirks := mk_quirks false false.
+     extensionless files (patched table: with the flag on the model follows the guard shape found in the
+     source, Gen.shebang_guard_any_ext; with the flag off it is confined to extensionless names) *)
+  q_shebang_any_ext : bool }.
+Definition ideal : quirks := mk_quirks false.
 
 (* ------------------------------------------------------------------ language detection *)
 Definition ext_of (name : string) : string :=
@@ -104,7 +103,7 @@ Definition detect (q : quirks) (f : file) : string :=
   match lookup ext extension_map with
   | Some l => l
   | None =>
-      if (q_shebang_any_ext q || String.eqb (py_suffix (f_name f)) "")
+      if ((q_shebang_any_ext q && shebang_guard_any_ext) || String.eqb (py_suffix (f_name f)) "")
          && f_nonempty f && f_readable f && is_shebang (first_line (f_head f))
       then shebang_lang else unknown_lang
   end.
@@ -180,17 +179,19 @@ Definition owns (cmd pkg rid : string) : bool :=
       String.eqb p pkg && match only with None => true | Some id => String.eqb rid id end
   end.
 
-Definition rule_owned (cmd : string) (r : rule) : bool :=
-  match lookup cmd cmd_owner with None => false | Some (p, _) => String.eqb p (r_pkg r) end.
-
-Definition aborts (q : quirks) (cmd : string) (c : cfg) (f : file) (lang : string) : bool :=
-  existsb (fun r => loads r f lang && rejected r c lang && (q_foreign_reject_aborts q || rule_owned cmd r)) rule_table.
+(* A section rejected (ValueError) by its linter's config class ends the run with an error whichever command
+   is running, because every registered rule runs on every file and Orchestrator._safe_check_rule re-raises
+   ValueError.  Property C05 demands exit code 2 for such values; configurations containing one are OUTSIDE the
+   domain of C15 (cfg_clean below).  The model keeps the behaviour so that the out-of-domain stream of the
+   harness stays predictable. *)
+Definition aborts (c : cfg) (f : file) (lang : string) : bool :=
+  existsb (fun r => loads r f lang && rejected r c lang) rule_table.
 
 Inductive outcome := Ok (vs : list viol) | Aborted.
 
 Definition run_cmd (q : quirks) (cmd : string) (c : cfg) (t : atab) (f : file) : outcome :=
   let lang := detect q f in
-  if aborts q cmd c f lang then Aborted
+  if aborts c f lang then Aborted
   else match lookup cmd cli_filters with
        | Some atoms => Ok (filter (fun v => passes atoms (fst v)) (run_all t lang))
        | None => Aborted
@@ -279,11 +280,7 @@ Definition entry_good (e : (string * string) * list viol) : bool :=
              rule_table.
 Definition atab_good (t : atab) : bool := forallb entry_good t.
 
-(* no section of the command's own linter is rejected (an invalid own section is a usage error, outside C15) *)
-Definition own_cfg_ok (cmd : string) (c : cfg) : bool :=
-  forallb (fun r => negb (rule_owned cmd r) || forallb (fun s => negb (smem (s_key s) (r_keys r)) || match s_rej s with [] => true | _ => false end) c) rule_table.
-
 Definition is_command (cmd : string) : bool := match lookup cmd cmd_owner with Some _ => true | None => false end.
 
-(* no section at all is rejected *)
+(* the domain of C15: every section of the configuration is valid (none is rejected by its linter's config class) *)
 Definition cfg_clean (c : cfg) : bool := forallb (fun s => match s_rej s with [] => true | _ => false end) c.
